@@ -10,6 +10,13 @@ import os
 import sys
 import time
 
+# Ad-hoc invocations (calibration aids) must never overwrite the committed evidence, which is
+# to come from the registered commands only: redirect them before sim.util reads the environment.
+if any(a in sys.argv for a in ("--runs", "--no-selftest", "--outside-region")) or \
+        any(a.startswith("--runs=") for a in sys.argv):
+    os.environ.setdefault("VERIF_EVIDENCE_DIR", "/tmp/verif_adhoc/evidence")
+    os.environ.setdefault("VERIF_REPLAY_DIR", "/tmp/verif_adhoc/replays")
+
 from sim import driver
 from sim.report import out
 from sim.util import canon, h64
